@@ -155,6 +155,8 @@ def impl_sx(res):
         return '(impl %s)' % res
     if res.startswith('bad'):
         return None
+    if res.startswith('impure'):
+        return '(impl crash)'
     if res.startswith('timeout'):
         return '(impl timeout)'
     return '(impl crash)'
